@@ -247,17 +247,19 @@ def refCrates (spec v : Text) : Option Bool :=
 def c02_npm_full : Prop := ∀ spec v, (parseStrict v).isSome → npmVerdict spec v = refNpm spec v
 def c02_crates_full : Prop := ∀ spec v, (parseStrict v).isSome → cratesVerdict spec v = refCrates spec v
 
-/-! F-C02-2: partial operands are zero-padded instead of being ranges -/
-theorem c02_npm_deviation_tilde_major :
-    npmVerdict "~1".toList "1.5.0".toList = some false ∧ refNpm "~1".toList "1.5.0".toList = some true := by decide
+/-! F-C02-2: partial operands. After an operator they are ranges now (repaired); WITHOUT an operator (and after `=`) a
+    partial version is still the version padded with zeros — the project's own unit tests pin that (`"1"` admits 1.0.0
+    only), so it stays a recorded deviation -/
+theorem c02_npm_partial_after_operator :
+    npmVerdict "~1".toList "1.5.0".toList = some true ∧ refNpm "~1".toList "1.5.0".toList = some true ∧
+    npmVerdict "<=1".toList "1.5.0".toList = some true ∧ refNpm "<=1".toList "1.5.0".toList = some true ∧
+    npmVerdict ">1".toList "1.0.1".toList = some false ∧ refNpm ">1".toList "1.0.1".toList = some false ∧
+    npmVerdict "^0".toList "0.5.0".toList = some true ∧ refNpm "^0".toList "0.5.0".toList = some true ∧
+    npmVerdict ">=1.2".toList "1.2.0-rc.1".toList = some true ∧ refNpm ">=1.2".toList "1.2.0-rc.1".toList = some true := by decide
 theorem c02_npm_deviation_bare_zero :
     npmVerdict "0".toList "0.5.0".toList = some false ∧ refNpm "0".toList "0.5.0".toList = some true := by decide
 theorem c02_npm_deviation_eq_partial :
     npmVerdict "=1.2".toList "1.2.5".toList = some false ∧ refNpm "=1.2".toList "1.2.5".toList = some true := by decide
-theorem c02_npm_deviation_le_partial :
-    npmVerdict "<=1".toList "1.5.0".toList = some false ∧ refNpm "<=1".toList "1.5.0".toList = some true := by decide
-theorem c02_npm_deviation_gt_partial :
-    npmVerdict ">1".toList "1.0.1".toList = some true ∧ refNpm ">1".toList "1.0.1".toList = some false := by decide
 theorem c02_npm_deviation_hyphen_partial :
     npmVerdict "1.2.3 - 2".toList "2.5.0".toList = some false ∧ refNpm "1.2.3 - 2".toList "2.5.0".toList = some true := by decide
 /-! F-C02-3: grammar deviations -/
@@ -295,8 +297,8 @@ theorem c02_crates_deviation_bare_zero_zero :
 
 /-- hence the full statements are false on the pinned tree -/
 theorem c02_npm_full_false : ¬ c02_npm_full := fun h => by
-  have := h "~1".toList "1.5.0".toList (by decide)
-  rw [c02_npm_deviation_tilde_major.1, c02_npm_deviation_tilde_major.2] at this
+  have := h "0".toList "0.5.0".toList (by decide)
+  rw [c02_npm_deviation_bare_zero.1, c02_npm_deviation_bare_zero.2] at this
   cases this
 theorem c02_crates_full_false : ¬ c02_crates_full := fun h => by
   have := h "~1".toList "1.5.0".toList (by decide)
@@ -307,7 +309,7 @@ theorem c02_crates_full_false : ¬ c02_crates_full := fun h => by
 example : Spec.NodeSemver.inFrag "^1.2.3".toList = true ∧ npmVerdict "^1.2.3".toList "1.9.0".toList = refNpm "^1.2.3".toList "1.9.0".toList := by decide
 example : Spec.NodeSemver.inFrag ">=1.0.0 <2.0.0 || 3.1.x".toList = true ∧
     npmVerdict ">=1.0.0 <2.0.0 || 3.1.x".toList "3.1.7".toList = refNpm ">=1.0.0 <2.0.0 || 3.1.x".toList "3.1.7".toList := by decide
-example : Spec.NodeSemver.inFrag "~1".toList = false := by decide
+example : Spec.NodeSemver.inFrag "~1".toList = true ∧ Spec.NodeSemver.inFrag "1".toList = false := by decide
 example : Spec.CargoReq.inFrag ">=1.2.3, <2.0.0".toList = true ∧
     cratesVerdict ">=1.2.3, <2.0.0".toList "1.9.0-rc.1".toList = refCrates ">=1.2.3, <2.0.0".toList "1.9.0-rc.1".toList := by decide
 
